@@ -231,6 +231,16 @@ func TestC15RC_RestartWhileDown(t *testing.T) {
 		c.MaxMs = c.DelayMs * rapid.SampledFrom([]int{1, 2}).Draw(t, "maxFactor")
 		c.GapUs = rapid.SampledFrom([]int{0, 1, 1000, c.DelayMs * 500, c.MaxMs * 2000}).Draw(t, "gap")
 		c.CloseAtUs = rapid.IntRange(0, c.Attempts*c.MaxMs*1000).Draw(t, "closeAtDown") // while the first round is still running
+		// Keep the Close 3 ms of real time away from the instants at which the running round makes its attempts (delay, delay + min(2 x delay, max), ...):
+		// the manager reports its events on goroutines of their own, and what the old round reported just before the Close cannot be told from
+		// what was reported just after it.
+		at := 0
+		for i, dl := 0, c.DelayMs; i < 4; i, dl = i+1, min(2*dl, c.MaxMs) {
+			at += dl * 1000
+			if c.CloseAtUs > at-3000 && c.CloseAtUs < at+3000 {
+				c.CloseAtUs = at + 3500
+			}
+		}
 		ev.Case(c, true, c.Transport+","+c.Reopen)
 		ev.Sample(c.Reopen, c)
 		if f, _ := evalC15c(c); f != nil {
